@@ -605,6 +605,13 @@ class Interp:
                     r = self.as_bytes(s[1], v.elem, e)
                     if isinstance(r, Top): return r
                     out.extend(r)
+                elif s[0] == 'sym' and is_term(s[1]):
+                    # the bytes of a symbolic vector of fixed-layout elements: one repetition of the element's bytes
+                    nm_ = show(s[1]) + '[i]'
+                    n_t = len(self.tops)
+                    r = self.as_bytes(self.sym_value(v.elem, nm_), v.elem, e)
+                    if isinstance(r, Top) or len(self.tops) != n_t: return r if isinstance(r, Top) else self.top('as_bytes of symbolic non-byte sequence', e)
+                    out.append(('rep', ('len', s[1]), nm_, tuple(r)))
                 else:
                     return self.top('as_bytes of symbolic non-byte sequence', e)
             return out
@@ -651,6 +658,11 @@ class Interp:
                     if lo_[0] == 'c' and idx[0] == 'c' and cmp('le', lo_, idx) == TRUE and cmp('lt', idx, hi_) == TRUE:
                         tmp = SeqV(s.elem, list(v)); r_ = self.base_get(tmp, C(idx[1] - lo_[1]))
                         if not isinstance(r_, Top): return r_
+                if s.is_bytes() and is_term(idx):
+                    # undecided whether the interval write covers the position: the byte keeps the name the byte-sum
+                    # machinery gives it ("position idx of this sequence after these stores"), an opaque value
+                    k_ = len(s.stores) - list(reversed(s.stores)).index((i, v))
+                    return stored_get(tuple(s.segs), list(s.stores[:k_]), idx)
                 return self.top('read of range-stored sequence')
             if isinstance(i, tuple) and i[0] == 'within': return self.top('read of a sequence after an in-place move')
             c = cmp('eq', i, idx)
@@ -740,10 +752,16 @@ class Interp:
             if all(v is UNIT or isinstance(v, Unit) for v in vs): return UNIT
             if all(isinstance(v, SeqV) for v in vs) and all(v.elem == first.elem for v in vs):
                 if all(v.segs == first.segs and v.stores == first.stores for v in vs): return first
-                if any(v.stores for v in vs) :
-                    if all(v.segs == first.segs for v in vs):
-                        return self.top('join of differently-stored sequences')
-                    return self.top('join of stored sequences')
+                if any(v.stores for v in vs):
+                    # buffers filled in place differently per branch: their contents after the stores, when these resolve
+                    fl = [flatten_stores(v) if v.stores else list(v.segs) for v in vs] if first.is_bytes() else None
+                    if fl is None or any(x is None for x in fl):
+                        if all(v.segs == first.segs for v in vs):
+                            return self.top('join of differently-stored sequences')
+                        return self.top('join of stored sequences')
+                    vs = [SeqV(first.elem, norm_segs(x), name=v.name) for x, v in zip(fl, vs)]
+                    vals = [(c, nv) for (c, _), nv in zip(vals, vs)]
+                    first = vs[0]
                 # common prefix
                 n = 0
                 while all(len(v.segs) > n for v in vs) and all(v.segs[n] == first.segs[n] for v in vs): n += 1
@@ -1470,6 +1488,9 @@ class Interp:
         return b_and(a, b) if e['op'] == 'And' else b_or(a, b)
 
     def e_Assign(self, e):
+        if e['rhs'].get('k') == 'Cast':
+            # `place = x as T;` is one MIR statement whose span is the whole assignment: the cast evaluated below is that site
+            self.visited_casts.add(e.get('sp'))
         v = self.eval(e['rhs'])
         p = self.place(e['lhs'])
         if e['lhs'].get('k') != 'Var' and not isinstance(p, IndexPlace): self.log.append(('mutate', 'assign', e.get('sp'), getattr(getattr(p, 'obj', None), 'uid', None)))
@@ -2476,7 +2497,11 @@ def stored_get(base, hist, idx):
         pos = 0
         for sg in base:
             l = seglen(sg)
-            if l[0] != 'c': break
+            if l[0] != 'c':
+                # a leading piece of symbolic length that is known to be long enough: the position is inside it
+                if sg[0] == 'raw' and rng(l)[0] > idx[1] - pos >= 0:
+                    sym.SEL_RANGE[sg[1]] = (0, 255); return ('sel', sg[1], C(idx[1] - pos))
+                break
             if pos <= idx[1] < pos + l[1]:
                 if sg[0] == 'int' and sg[2] == 1: return sg[1]
                 if sg[0] == 'int': return band(shr(sg[1], C(8 * (idx[1] - pos))), C(0xff)) if sg[1][0] != 'c' else C((sg[1][1] >> (8 * (idx[1] - pos))) & 0xff)
